@@ -15,6 +15,7 @@ Variable E : env.
 Variable dir : bool.
 Variable noop_leaf : nat -> bool.
 
+Local Notation found := (BuildLemmas.found E).
 Definition hask (cx : ctx) (k : ty) : bool := match find_key k cx with Some _ => true | None => false end.
 
 Lemma hask_set cx k r k' : hask cx k' = true -> hask (ctx_set k r cx) k' = true.
@@ -23,17 +24,17 @@ Lemma hask_set_same cx k r : hask (ctx_set k r cx) k = true.
 Proof. unfold hask, ctx_set. cbn [find_key]. rewrite ty_eqb_refl. reflexivity. Qed.
 
 Lemma found_hask cx k : hask cx k = true -> found cx k = true.
-Proof. unfold hask, found, getitem. destruct (find_key k cx); [reflexivity|discriminate]. Qed.
+Proof. unfold hask, BuildLemmas.found, getitem. destruct (find_key k cx); [reflexivity|discriminate]. Qed.
 
 (* the last fallback of __missing__: the forward reference of the key *)
 Lemma fref_not_ref k rf : fref k = Some rf -> is_ref k = false /\ evaluate k = k.
 Proof. destruct k; cbn [fref]; intros H; try discriminate H; split; reflexivity. Qed.
 
 Lemma found_fref cx k rf : fref k = Some rf -> hask cx rf = true -> found cx k = true.
-Proof. intros Hf Hh. unfold hask in Hh. unfold found, getitem.
+Proof. intros Hf Hh. unfold hask in Hh. unfold BuildLemmas.found, getitem.
   destruct (find_key k cx); [reflexivity|].
   destruct (fref_not_ref _ _ Hf) as [Hr _]. rewrite Hr.
-  destruct (find_key (unwrap k) cx); [reflexivity|]. rewrite Hf.
+  destruct (find_key (unwrap E k) cx); [reflexivity|]. rewrite Hf.
   destruct (find_key rf cx); [reflexivity|discriminate Hh]. Qed.
 
 (* a key that is in the context is found under its own annotation and under the evaluated one *)
@@ -71,11 +72,11 @@ Proof.
   - apply andb_true_iff in H. destruct H as [H1 H2]. apply found_getitem in H1. apply found_getitem in H2.
     destruct H1 as [r1 Hr1]. destruct H2 as [r2 Hr2]. rewrite Hr1, Hr2. cbn [bind]. eexists; reflexivity.
   - rewrite forallb_forall in H.
-    destruct (mapM_total (fun t => getitem cx (evaluate t)) ts) as [rs Hrs].
+    destruct (mapM_total (fun t => getitem E cx (evaluate t)) ts) as [rs Hrs].
     { intros a Ha. apply found_getitem. apply H. exact Ha. }
     rewrite Hrs. cbn [bind]. eexists; reflexivity.
   - rewrite forallb_forall in H.
-    destruct (mapM_total (getitem cx) (members_u dir ts)) as [rs Hrs].
+    destruct (mapM_total (getitem E cx) (members_u dir ts)) as [rs Hrs].
     { intros a Ha. apply found_getitem. apply H. exact Ha. }
     rewrite Hrs. cbn [bind]. eexists; reflexivity.
   - destruct (E n) as [[cd|t]|]; try discriminate H. eexists; reflexivity.
@@ -212,7 +213,7 @@ Lemma unwrap_not_wrapper c : not_wrapper (Graph.unwrap c).
 Proof. induction c using gty_ind'; cbn [Graph.unwrap not_wrapper]; try exact I; assumption. Qed.
 
 (* ---- translation commutes with unwrap ---- *)
-Lemma tr_unwrap c : forall t, tr c = Some t -> tr (Graph.unwrap c) = Some (unwrap t).
+Lemma tr_unwrap c : forall t, tr c = Some t -> tr (Graph.unwrap c) = Some (unwrap_s t).
 Proof.
   induction c as [s| | | |n|g a _|sp ms _|c|m n x IH|m n x IH|m n bd|x IH|a mo] using gty_ind';
     intros t H; cbn [Graph.unwrap].
@@ -224,12 +225,12 @@ Proof.
   - rewrite H. pose proof (tr_gen_head _ _ _ H) as Hh. destruct t; try contradiction; reflexivity.
   - rewrite H. rewrite tr_ty_union in H. apply option_map_some in H. destruct H as [l [_ ->]]. reflexivity.
   - injection H as <-. reflexivity.
-  - rewrite tr_ty_newtype in H. apply option_map_some in H. destruct H as [tx [Hx ->]]. cbn [unwrap]. apply IH. exact Hx.
-  - rewrite tr_ty_alias in H. apply option_map_some in H. destruct H as [tx [Hx ->]]. cbn [unwrap]. apply IH. exact Hx.
+  - rewrite tr_ty_newtype in H. apply option_map_some in H. destruct H as [tx [Hx ->]]. cbn [unwrap_s]. apply IH. exact Hx.
+  - rewrite tr_ty_alias in H. apply option_map_some in H. destruct H as [tx [Hx ->]]. cbn [unwrap_s]. apply IH. exact Hx.
   - rewrite tr_ty_aliasstr in H. rewrite tr_ty_ref.
     destruct (rref N (remove_lead (m +++ "."%string) bd) (Some m)) as [r|]; [|discriminate H].
     destruct r; try discriminate H. injection H as <-. reflexivity.
-  - rewrite tr_ty_final in H. apply option_map_some in H. destruct H as [tx [Hx ->]]. cbn [unwrap]. apply IH. exact Hx.
+  - rewrite tr_ty_final in H. apply option_map_some in H. destruct H as [tx [Hx ->]]. cbn [unwrap_s]. apply IH. exact Hx.
   - rewrite H. rewrite tr_ty_ref in H. destruct (rref N a mo) as [r|]; [|discriminate H].
     destruct (ref_shape r) eqn:Hs; [|discriminate H]. injection H as <-.
     destruct r; try discriminate Hs; reflexivity.
@@ -254,6 +255,23 @@ Proof.
   - rewrite tr_ty_final in H. apply option_map_some in H. destruct H as [tx [_ ->]]. discriminate Hr.
   - rewrite tr_ty_ref in H. destruct (rref N a mo) as [r|]; [|discriminate H].
     destruct (ref_shape r) eqn:Hs; [|discriminate H]. injection H as <-. exact Hs.
+Qed.
+
+(* only a class translates to a name: alias objects are structural at the graph level (GAlias / GAliasStr), so a
+   translated annotation never is the name of an alias entry of a core environment *)
+Lemma tr_name c n : tr c = Some (TName n) -> c = GClass n.
+Proof.
+  destruct c as [s| | | |n0|g a|sp ms|c|m n0 x|m n0 x|m n0 bd|x|a mo]; intros H; try discriminate H.
+  - pose proof (tr_gen_head _ _ _ H) as Hh. contradiction.
+  - rewrite tr_ty_union in H. apply option_map_some in H. destruct H as [l [_ Hl]]. discriminate Hl.
+  - injection H as ->. reflexivity.
+  - rewrite tr_ty_newtype in H. apply option_map_some in H. destruct H as [tx [_ Hl]]. discriminate Hl.
+  - rewrite tr_ty_alias in H. apply option_map_some in H. destruct H as [tx [_ Hl]]. discriminate Hl.
+  - rewrite tr_ty_aliasstr in H. destruct (rref N (remove_lead (m +++ "."%string) bd) (Some m)) as [r|]; [|discriminate H].
+    destruct r; discriminate H.
+  - rewrite tr_ty_final in H. apply option_map_some in H. destruct H as [tx [_ Hl]]. discriminate Hl.
+  - rewrite tr_ty_ref in H. destruct (rref N a mo) as [r|]; [|discriminate H].
+    destruct (ref_shape r) eqn:Hs; [|discriminate H]. injection H as ->. discriminate Hs.
 Qed.
 
 (* what translates is never dropped as a generic argument; as a field hint only Any is *)
@@ -292,11 +310,11 @@ Lemma members_found_tr cx u U :
   not_wrapper u -> tr u = Some U ->
   (forall c, u = GClass c -> exists d, E c = Some d /\ class_rel d (E' c) /\
                                        (In GAny (map snd (Graph.cfields d)) -> noop_leaf (any_id N) = true)) ->
-  (forall var c, In (var, c) (level E u) -> skip var c = false -> exists t, tr c = Some t /\ avail cx t) ->
+  (forall var c, In (var, c) (level E u) -> skip var c = false -> exists t, tr c = Some t /\ avail E' cx t) ->
   members_found E' dir noop_leaf cx U = true.
 Proof.
   intros Hnw H Hcls Hmem.
-  assert (Harg : forall x tx, In (@None Graph.str, x) (level E u) -> tr x = Some tx -> avail cx tx).
+  assert (Harg : forall x tx, In (@None Graph.str, x) (level E u) -> tr x = Some tx -> avail E' cx tx).
   { intros x tx Hin Hx. destruct (Hmem None x Hin (tr_skip_none N x tx Hx)) as [t [Ht Ha]].
     rewrite Hx in Ht. injection Ht as <-. exact Ha. }
   destruct u as [s| | | |n|g a|sp ms|c|m n x|m n x|m n bd|x|a mo]; try contradiction.
@@ -461,18 +479,25 @@ Proof.
     unfold adj_nodes in Hm0. apply in_flat_map in Hm0. destruct Hm0 as [[p preds] [Hpin Hm0]]. cbn [fst snd] in Hm0.
     destruct Hm0 as [<-|Hm0]; [destruct (key_shape _ _ _ _ _ _ Hg Hpin) as [Hk _]; congruence|].
     assert (Hok : cyc_ok N m0 = true) by (apply (Hcyc p preds m0 Hpin Hm0); congruence).
-    unfold cyc_ok in Hok. apply orb_true_iff in Hok. destruct Hok as [Hd|Hr].
+    unfold cyc_ok in Hok. apply orb_true_iff in Hok. apply orb_true_iff. left. destruct Hok as [Hd|Hr].
     + destruct (node_eqb_true _ _ Hd) as [Hd1 [Hd2 _]]. cbn [Graph.ntype Graph.nunw mkdefer] in Hd1, Hd2.
       rewrite <- Hty in Hd1. rewrite <- Hun, <- Hd1 in Hd2. rewrite Hd2 in Hu1.
-      rewrite (tr_unwrap N _ _ Ht1) in Hu1. injection Hu1 as <-. rewrite norm_unwrap. apply ty_eqb_refl.
+      rewrite (tr_unwrap N _ _ Ht1) in Hu1. injection Hu1 as <-. rewrite norm_unwrap_s. apply ty_eqb_refl.
     + rewrite <- Hty, <- Hun, Ht1, Hu1 in Hr. destruct (tr (nfor m0)) as [tc|]; [|discriminate Hr].
       apply andb_true_iff in Hr. exact (proj2 Hr).
   - (* an expanded node *)
     destruct (nodes_served fuel E root g Hg m0 Hm0) as [preds Hpin]; [congruence|].
     destruct (key_shape _ _ _ _ _ _ Hg Hpin) as [_ Hsh]. rewrite <- Hty, <- Hun in Hsh.
-    assert (Hu : u = unwrap t).
-    { rewrite Hsh in Hu1. rewrite (tr_unwrap N _ _ Ht1) in Hu1. injection Hu1 as <-. reflexivity. }
-    apply andb_true_iff. split; [rewrite Hu; apply ty_eqb_refl|].
+    assert (Hu : u = unwrap_s t).
+    { pose proof Hu1 as Hu2. rewrite Hsh in Hu2. rewrite (tr_unwrap N _ _ Ht1) in Hu2. injection Hu2 as <-. reflexivity. }
+    (* the core environment has a CLASS under every name an expanded node unwraps to: unwrap does not leave the
+       structural part *)
+    assert (Hue : unwrap E' t = u).
+    { rewrite Hu. apply unwrap_class. intros c Hc'. rewrite <- Hu in Hc'. rewrite Hc' in Hu1.
+      pose proof (tr_name N _ _ Hu1) as Hgc.
+      destruct (Hcls m0 preds c Hpin) as [d [_ [[cd [Hcd _]] _]]]; [rewrite <- Hun; exact Hgc|].
+      exists cd. exact Hcd. }
+    apply andb_true_iff. split; [rewrite Hue; apply ty_eqb_refl|].
     apply (members_found_tr N E E' dir noop_leaf cx' (Graph.nunw n) u).
     + rewrite Hsh. apply unwrap_not_wrapper.
     + exact Hu1.
@@ -488,7 +513,7 @@ Proof.
       destruct (before_split pre n post m0 m Hnd (node_eqb_sym _ _ Hnm0) Hbef) as [m' [Hm'pre Hmm']].
       destruct (node_eqb_true _ _ Hmm') as [Hmt [Hmu _]].
       destruct (Hcov m' Hm'pre) as [tm [um [Htm [Hum [Hh1 Hh2]]]]]. rewrite <- Hmt in Htm.
-      assert (Hself : Graph.ntype m = c -> exists t0, tr c = Some t0 /\ avail cx' t0).
+      assert (Hself : Graph.ntype m = c -> exists t0, tr c = Some t0 /\ avail E' cx' t0).
       { intros Hmc. rewrite Hmc in Htm. exists tm. split; [exact Htm|].
         apply avail_key; [exact Hh1|]. intros Hr. exact (tr_ref_shape N c tm Htm Hr). }
       destruct Hrep as [_ [Hfor [[_ Hm]|[[_ [Hm _]]|[Hmc [_ _]]]]]].
@@ -501,7 +526,7 @@ Proof.
            destruct (tr c) as [tc|] eqn:Htc; [|discriminate Hr].
            apply andb_true_iff in Hr. destruct Hr as [Hr _].
            destruct (fref tc) as [rf|] eqn:Hrf; [|discriminate Hr]. apply ty_eqb_eq in Hr. subst rf.
-           exists tc. split; [reflexivity|]. exact (avail_fref cx' tc tm Hrf Hh1).
+           exists tc. split; [reflexivity|]. exact (avail_fref E' cx' tc tm Hrf Hh1).
 Qed.
 
 (* Every topological order of the adjacency the graph model builds, translated, satisfies the contract
@@ -723,7 +748,7 @@ Proof.
   destruct (Hlaw _ m nu _ Hu2 Hnu (tr_unwrap N c tc Htc)) as [rfu [Hrfu Hr2]].
   unfold cyc_ok. rewrite Hfor, Hty, Hun0, Hr1, Hr2, Htc, Hrf. apply orb_true_iff. right.
   rewrite ty_eqb_refl. cbn [andb].
-  rewrite (norm_fref _ _ Hrfu), (norm_fref _ _ Hrf), norm_unwrap. apply ty_eqb_refl.
+  rewrite (norm_fref _ _ Hrfu), (norm_fref _ _ Hrf), norm_unwrap_s. apply ty_eqb_refl.
 Qed.
 
 (* computable: every deferred node is the member deferred as itself, or stands for a translatable member
